@@ -11,7 +11,8 @@ EXTENDS Naturals, Sequences, FiniteSets, TLC, Json
 CONSTANTS Classes, Fmts, Accepts
 
 TextClasses == {"TextJsonObj", "TextJsonArr", "BytesJsonObj", "TextHtml", "BytesHtml", "TextPlain", "BytesPlain", "TextEmpty",
-                "TextBraceNotJson", "TextJsonPadded"}
+                "TextBraceNotJson", "TextJsonPadded",
+                "TextMismatchedBrackets"}    \* opens with one kind of bracket and closes with the other: not JSON, plain text
 ScalarClasses == {"Int", "Float", "Bool", "None", "PlainObject", "Generator"}
 NativeClasses == {"FlatMap", "SeqScalars", "SeqFlatMaps", "SeqFlatSeqs", "Nested", "EmptySeq", "EmptyMap", "Tuple",
                   "NonDictMapping"}   \* string-keyed mappings that are not dict subclasses (MappingProxyType, UserDict, ChainMap)   \* JSON-native data
@@ -31,7 +32,7 @@ AsksHtml(fmt, acc) == IF fmt = "html" THEN "yes" ELSE IF fmt = "json" THEN "no"
 Outcomes(c, fmt, acc) ==
     IF c \in {"TextJsonObj", "TextJsonArr", "BytesJsonObj"} THEN {<<"application/json", "verbatim">>}
     ELSE IF c \in {"TextHtml", "BytesHtml"} THEN {<<"text/html", "verbatim">>}
-    ELSE IF c \in {"TextPlain", "BytesPlain", "TextEmpty"} THEN {<<"text/plain", "verbatim">>}
+    ELSE IF c \in {"TextPlain", "BytesPlain", "TextEmpty", "TextMismatchedBrackets"} THEN {<<"text/plain", "verbatim">>}
     ELSE IF c \in {"TextBraceNotJson", "TextJsonPadded"} THEN {<<"application/json", "verbatim">>, <<"text/plain", "verbatim">>}
     ELSE IF c \in ScalarClasses THEN {<<l, "any">> : l \in Labels}
     ELSE \* mappings and sequences
